@@ -143,7 +143,12 @@ pub trait Geodesics: EllipsoidBase {
             aacos2 = 1. - aasin * aasin;
 
             // cosine of 2 times σ_m, the angular separation from the midpoint to the equator
-            ssmx2cos = sscos - 2. * U1sin * U2sin / aacos2;
+            // (for a geodesic along the equator, aacos2 is 0 - and so is the numerator)
+            ssmx2cos = if aacos2 == 0. {
+                0.
+            } else {
+                sscos - 2. * U1sin * U2sin / aacos2
+            };
             let C = (4. + f * (4. - 3. * aacos2)) * f * aacos2 / 16.;
             let ll_next = L
                 + (1. - C)
